@@ -55,7 +55,29 @@ def rule_a(ctx, out):
     key = stores[0].targets[0].slice
     defs = [n for n in own_nodes(gj.node) if isinstance(n, ast.Assign) and isinstance(key, ast.Name) and is_name(n.targets[0], key.id)]
     shapes = [_name_shape(d.value) for d in defs]
-    if not shapes or any(s is None for s in shapes):
+    by_helper = False
+    if len(defs) == 1 and shapes[0] is None and isinstance(defs[0].value, ast.Call):
+        # the key comes from a naming helper: decided by evaluation — helper(<name>, None) = <name>_0, helper(<name>, k) = <name>_<k>
+        from ..core.interp import ModuleInterp
+        from ..core.minieval import Unsupported, Raised
+        c = defs[0].value
+        tg = ctx.r.resolve_call(gj, c)
+        if len(tg) == 1 and len(c.args) == 2 and not c.keywords and is_name(c.args[0], gj.params[0]) and is_name(c.args[1], "subblock"):
+            mi = ModuleInterp(ctx, max_steps=20000)
+            try:
+                got = [mi.call(tg[0], "Blk", k) for k in (None, 0, 3, 12)]
+            except (Unsupported, Raised) as e:
+                raise AnalysisError(f"{tg[0].name}: the naming helper cannot be evaluated: {e}")
+            if got == ["Blk_0", "Blk_0", "Blk_3", "Blk_12"]:
+                by_helper = True
+                for k_, g_ in zip((None, 0, 3, 12), got):
+                    out.ok({"writer": short(c), "sub_block": k_, "key": g_})
+            else:
+                out.bad("generate_json:key-parts:helper", f"the naming helper {tg[0].name} yields {got} for sub-blocks None, 0, 3, 12 of `Blk`", where(tg[0]))
+                return
+    if by_helper:
+        shapes, defs = [], []
+    elif not shapes or any(s is None for s in shapes):
         out.bad("generate_json:key-shape", f"specification key is built as {[short(d.value) for d in defs]}, not <name> + '_' + str(<index>)", where(gj))
         return
     pname, pidx = gj.params[0], "subblock"
